@@ -24,6 +24,7 @@ structure Ctx where
   subquery : Bool := false
   subcriterion : Bool := false
   groupbyAlias : Bool := true
+  groupbyAliasSet : Bool := false      -- the key `groupby_alias` is present in kwargs (set by an enclosing statement / the caller)
   /-- a parameter collector is present in kwargs -/
   param : Bool := false
   deriving DecidableEq, Repr, Inhabited
